@@ -86,8 +86,9 @@ def match_known(known, prop, kernel, label, params, inputs):
         w = f.get('where')
         if w:
             try:
-                ok = eval(w, {'__builtins__': {}}, dict(inputs=inputs, params=params, len=len, abs=abs, all=all, any=any,
-                                                          Fraction=Fraction, int=int, str=str, bytes=bytes, min=min, max=max))
+                # names go into the globals of the evaluation so that lambdas / generator expressions in the predicate can see them
+                ok = eval(w, dict(__builtins__={}, inputs=inputs, params=params, len=len, abs=abs, all=all, any=any,
+                                  Fraction=Fraction, int=int, str=str, bytes=bytes, min=min, max=max))
             except Exception:
                 ok = False
             if not ok:
@@ -146,12 +147,13 @@ def main(argv=None):
     rnd.shuffle(order)
     opts = dict(seed=seed, timeout_ms=int(os.environ.get('SX_TIMEOUT_MS', '120000')))
 
+    known = load_known()
     # ---- exploration: dynamic work distribution over a process pool
     agg = {}
     for i, (kid, p) in enumerate(tasks):
         agg[i] = dict(kernel=kid, params=p, paths=0, vacuous=0, transitions=0, queries=0, solver_s=0.0, obligations=0,
                       discharged=0, cex=[], unknown=[], oom=[], labels={}, cuts=0, fidelity=[], samples=[], funcs={},
-                      hashes=0, assumes=0, max_decisions=0, fatal=None, cpu_s=0.0, budget_exceeded=False)
+                      hashes=0, assumes=0, max_decisions=0, fatal=None, cpu_s=0.0, budget_exceeded=False, known_cex=[])
     ctxmp = mp.get_context('fork')
     futs = {}
     fid_cap = 40 if a.tier == 'quick' else 120
@@ -180,7 +182,13 @@ def main(argv=None):
                     g[key] += r[key]
                 g['cpu_s'] += r['wall_s']
                 g['max_decisions'] = max(g['max_decisions'], r['max_decisions'])
-                g['cex'].extend(r['cex'][:5])
+                for cx in r['cex']:
+                    # counterexamples explained by a known finding do not use up the per-task budget (exploration goes on)
+                    if match_known(known, a.prop, g['kernel'], cx['label'], g['params'], cx['inputs']):
+                        if len(g['known_cex']) < 40:
+                            g['known_cex'].append(cx)
+                    elif len(g['cex']) < 200:
+                        g['cex'].append(cx)
                 g['unknown'].extend(r['unknown'][:5])
                 g['oom'].extend(r['oom'][:5])
                 for l, n in r['labels'].items():
@@ -206,7 +214,6 @@ def main(argv=None):
                     submit(ti, pfx, vs, False)
 
     # ---- verdicts
-    known = load_known()
     incon = []
     for ti, g in agg.items():
         kid = g['kernel']
@@ -235,10 +242,13 @@ def main(argv=None):
             cases.append(dict(kernel=g['kernel'], params=g['params'], inputs=fc['inputs']))
             index.append(('fid', ti, fc))
         seen = {}
-        for cx in g['cex']:
-            if seen.get(cx['label'], 0) >= 3:
+        for cx in g['known_cex'] + g['cex']:
+            # replay up to 3 counterexamples per label that no known finding explains, plus one per known finding
+            kf = match_known(known, a.prop, g['kernel'], cx['label'], g['params'], cx['inputs'])
+            key = (cx['label'], kf.get('id') if kf else None)
+            if seen.get(key, 0) >= (1 if kf else 3):
                 continue
-            seen[cx['label']] = seen.get(cx['label'], 0) + 1
+            seen[key] = seen.get(key, 0) + 1
             cases.append(dict(kernel=g['kernel'], params=g['params'], inputs=cx['inputs']))
             index.append(('cex', ti, cx))
     try:
@@ -260,7 +270,7 @@ def main(argv=None):
             return 'concrete run violates an assume()'
         if any(not v for _, v in r['obs']):
             lab = [l for l, v in r['obs'] if not v]
-            if not any(cx['label'] in lab for cx in g['cex']):
+            if not any(cx['label'] in lab for cx in g['cex'] + g['known_cex']):
                 return 'obligation(s) %s false in concrete run but discharged symbolically' % lab
             return None
         if r.get('observed_error'):
